@@ -42,11 +42,25 @@ func (g *customGen[V]) maybeValue(t *T) (V, bool) {
 	// Runs last, after cleanup: a non-fatal failure signalled on the inner T fails the test case
 	// instead of being dropped together with the inner T.
 	defer t.failOnError()
+
+	// A failure of the generator function is not replaced by a skip raised during cleanup.
+	var failure any
+	defer func() {
+		if failure != nil {
+			if r := recover(); r != nil {
+				if _, ok := r.(invalidData); !ok {
+					panic(r)
+				}
+			}
+			panic(failure)
+		}
+	}()
 	defer t.cleanup()
 
 	defer func() {
 		if r := recover(); r != nil {
 			if _, ok := r.(invalidData); !ok {
+				failure = r
 				panic(r)
 			}
 		}
